@@ -5,9 +5,14 @@
 //! Types are prefix terms joined by `:` (`list:dict:i8:utf8`, `fsl:2:i32`, `struct:2:i32:utf8`).
 //! The `variant` integer selects the physical representation (slicing, dictionary layout,
 //! run layout, data buffers of views, explicit all-valid null buffers).
+use arrow_array::cast::AsArray;
 use arrow_array::types::*;
 use arrow_array::*;
-use arrow_buffer::{IntervalDayTime, IntervalMonthDayNano, NullBuffer, OffsetBuffer, ScalarBuffer, i256};
+use arrow_array::ArrowNativeTypeOp;
+use arrow_buffer::{Buffer, IntervalDayTime, IntervalMonthDayNano, NullBuffer, OffsetBuffer, ScalarBuffer, i256};
+use arrow_ord::cmp::compare_byte_view;
+use arrow_ord::comparison::{in_list, in_list_utf8};
+use arrow_ord::sort::{FixedLexicographicalComparator, lexsort, partition_validity};
 use arrow_ord::cmp;
 use arrow_ord::ord::make_comparator;
 use arrow_ord::partition::partition;
@@ -16,7 +21,7 @@ use arrow_ord::sort::{
     LexicographicalComparator, SortColumn, SortOptions, lexsort_to_indices, partial_sort, sort, sort_limit,
     sort_to_indices,
 };
-use arrow_schema::{ArrowError, DataType, Field, Fields, IntervalUnit, TimeUnit};
+use arrow_schema::{ArrowError, DataType, Field, Fields, IntervalUnit, TimeUnit, UnionFields, UnionMode};
 use arrow_select::take::take;
 use half::f16;
 use std::cmp::Ordering;
@@ -35,6 +40,8 @@ enum Ty {
     List(String, Box<Ty>), // list | llist | lview | llview
     Fsl(usize, Box<Ty>),
     Struct(Vec<Ty>),
+    Map(Box<Ty>, Box<Ty>),
+    Union(bool, Vec<Ty>), // dense?, children (type id of child k is 3*k)
 }
 
 const INT_PRIMS: &[&str] = &[
@@ -67,6 +74,15 @@ fn parse_ty(it: &mut std::str::Split<'_, char>) -> Ty {
             let n: usize = it.next().unwrap().parse().unwrap();
             Ty::Struct((0..n).map(|_| parse_ty(it)).collect())
         }
+        "map" => {
+            let k = parse_ty(it);
+            Ty::Map(Box::new(k), Box::new(parse_ty(it)))
+        }
+        "union" => {
+            let dense = it.next().unwrap() == "d";
+            let n: usize = it.next().unwrap().parse().unwrap();
+            Ty::Union(dense, (0..n).map(|_| parse_ty(it)).collect())
+        }
         b if BYTES.contains(&b) => Ty::Bytes(b.to_string()),
         p => Ty::Prim(p.to_string()),
     }
@@ -83,6 +99,10 @@ fn ty_str(t: &Ty) -> String {
         Ty::List(k, v) => format!("{}:{}", k, ty_str(v)),
         Ty::Fsl(n, v) => format!("fsl:{}:{}", n, ty_str(v)),
         Ty::Struct(fs) => format!("struct:{}:{}", fs.len(), fs.iter().map(ty_str).collect::<Vec<_>>().join(":")),
+        Ty::Map(k, v) => format!("map:{}:{}", ty_str(k), ty_str(v)),
+        Ty::Union(d, fs) => {
+            format!("union:{}:{}:{}", if *d { "d" } else { "s" }, fs.len(), fs.iter().map(ty_str).collect::<Vec<_>>().join(":"))
+        }
     }
 }
 
@@ -95,6 +115,7 @@ enum V {
     Bytes(Vec<u8>),
     List(Vec<V>),
     Struct(Vec<V>),
+    Union(i8, Box<V>),
 }
 
 fn tok(v: &V) -> String {
@@ -114,6 +135,14 @@ fn tok(v: &V) -> String {
         }
         V::List(vs) => format!("[{}]", vs.iter().map(tok).collect::<Vec<_>>().join(";")),
         V::Struct(vs) => format!("{{{}}}", vs.iter().map(tok).collect::<Vec<_>>().join(";")),
+        V::Union(t, v) => format!("u{}:{}", t, tok(v)),
+    }
+}
+/// token used in answers: a union slot with a null child is logically null
+fn tok_out(v: &V) -> String {
+    match v {
+        V::Union(_, c) if **c == V::Null => "n".into(),
+        v => tok(v),
     }
 }
 
@@ -151,6 +180,10 @@ fn parse_v(s: &str) -> V {
         b'{' => {
             let inner = &rest[..rest.len() - 1];
             V::Struct(if inner.is_empty() { vec![] } else { split_top(inner, ';').into_iter().map(parse_v).collect() })
+        }
+        b'u' => {
+            let (t, v) = rest.split_once(':').expect("union token");
+            V::Union(t.parse().unwrap(), Box::new(parse_v(v)))
         }
         _ => panic!("bad value token"),
     }
@@ -213,6 +246,7 @@ fn data_type(ty: &Ty) -> DataType {
             "idt" => DataType::Interval(IntervalUnit::DayTime),
             "imdn" => DataType::Interval(IntervalUnit::MonthDayNano),
             "bool" => DataType::Boolean,
+            "null" => DataType::Null,
             x => panic!("unknown prim {}", x),
         },
         Ty::Bytes(b) => match b.as_str() {
@@ -240,7 +274,20 @@ fn data_type(ty: &Ty) -> DataType {
         }
         Ty::Fsl(n, v) => DataType::FixedSizeList(Arc::new(Field::new("item", data_type(v), true)), *n as i32),
         Ty::Struct(fs) => DataType::Struct(struct_fields(fs)),
+        Ty::Map(k, v) => DataType::Map(map_entries_field(k, v), false),
+        Ty::Union(d, fs) => DataType::Union(union_fields(fs), if *d { UnionMode::Dense } else { UnionMode::Sparse }),
     }
+}
+fn map_entries_field(k: &Ty, v: &Ty) -> Arc<Field> {
+    let fs: Fields = vec![Field::new("keys", data_type(k), false), Field::new("values", data_type(v), true)].into();
+    Arc::new(Field::new("entries", DataType::Struct(fs), false))
+}
+fn union_fields(fs: &[Ty]) -> UnionFields {
+    UnionFields::try_new(
+        (0..fs.len()).map(|k| (3 * k) as i8),
+        fs.iter().enumerate().map(|(k, t)| Field::new(format!("c{}", k), data_type(t), true)),
+    )
+    .expect("union fields")
 }
 fn struct_fields(fs: &[Ty]) -> Fields {
     fs.iter().enumerate().map(|(i, t)| Field::new(format!("f{}", i), data_type(t), true)).collect::<Vec<_>>().into()
@@ -259,6 +306,9 @@ macro_rules! prim_arr {
                 })
                 .collect();
             PrimitiveArray::<$t>::new(vals.into(), Some(NullBuffer::from($vals.iter().map(|v| *v != V::Null).collect::<Vec<bool>>())))
+        } else if ($var >> 6) & 1 == 0 && !$vals.iter().any(|v| *v == V::Null) {
+            // no validity buffer at all
+            PrimitiveArray::<$t>::from_iter_values($vals.iter().map(|v| as_i128(v).unwrap() as <$t as ArrowPrimitiveType>::Native))
         } else {
             $vals.iter().map(|v| as_i128(v).map(|x| x as <$t as ArrowPrimitiveType>::Native)).collect()
         };
@@ -268,6 +318,10 @@ macro_rules! prim_arr {
 
 fn build_prim(p: &str, vals: &[V], dt: DataType, var: u64) -> ArrayRef {
     match p {
+        "null" => {
+            assert!(vals.iter().all(|v| *v == V::Null));
+            Arc::new(NullArray::new(vals.len()))
+        }
         "i8" => prim_arr!(Int8Type, vals, dt, var),
         "i16" => prim_arr!(Int16Type, vals, dt, var),
         "i32" => prim_arr!(Int32Type, vals, dt, var),
@@ -337,7 +391,12 @@ fn build_prim(p: &str, vals: &[V], dt: DataType, var: u64) -> ArrayRef {
             Arc::new(a)
         }
         "bool" => {
-            let a: BooleanArray = vals.iter().map(|v| as_i128(v).map(|x| x != 0)).collect();
+            let a: BooleanArray = if (var >> 10) & 1 == 1 && vals.iter().any(|v| *v == V::Null) {
+                let bits: arrow_buffer::BooleanBuffer = vals.iter().enumerate().map(|(r, v)| as_i128(v).map(|x| x != 0).unwrap_or(r % 2 == 0)).collect();
+                BooleanArray::new(bits, Some(NullBuffer::from(vals.iter().map(|v| *v != V::Null).collect::<Vec<bool>>())))
+            } else {
+                vals.iter().map(|v| as_i128(v).map(|x| x != 0)).collect()
+            };
             Arc::new(a)
         }
         x => panic!("unknown prim {}", x),
@@ -352,7 +411,28 @@ fn bytes_of(v: &V) -> Option<&[u8]> {
     }
 }
 
-fn build_bytes(b: &str, vals: &[V]) -> ArrayRef {
+fn build_bytes(b: &str, vals: &[V], var: u64) -> ArrayRef {
+    if (var >> 10) & 1 == 1 && !b.ends_with('v') && vals.iter().any(|v| *v == V::Null) {
+        // null slots cover non-empty (valid utf8) payload bytes
+        let mut data: Vec<u8> = vec![];
+        let mut lens: Vec<usize> = vec![];
+        for (r, v) in vals.iter().enumerate() {
+            let bytes: Vec<u8> = match bytes_of(v) {
+                Some(x) => x.to_vec(),
+                None => vec![b'Z'; 1 + r % 5],
+            };
+            lens.push(bytes.len());
+            data.extend(bytes);
+        }
+        let nulls = Some(NullBuffer::from(vals.iter().map(|v| *v != V::Null).collect::<Vec<bool>>()));
+        let buf = Buffer::from_vec(data);
+        return match b {
+            "utf8" => Arc::new(StringArray::new(OffsetBuffer::from_lengths(lens), buf, nulls)),
+            "lutf8" => Arc::new(LargeStringArray::new(OffsetBuffer::from_lengths(lens), buf, nulls)),
+            "bin" => Arc::new(BinaryArray::new(OffsetBuffer::from_lengths(lens), buf, nulls)),
+            _ => Arc::new(LargeBinaryArray::new(OffsetBuffer::from_lengths(lens), buf, nulls)),
+        };
+    }
     let s = |x: &[u8]| std::str::from_utf8(x).expect("utf8").to_string();
     match b {
         "utf8" => Arc::new(vals.iter().map(|v| bytes_of(v).map(s)).collect::<StringArray>()),
@@ -467,13 +547,26 @@ fn build_list(kind: &str, inner: &Ty, vals: &[V], var: u64) -> ArrayRef {
         .collect();
     let nulls = nulls_of(vals, var);
     if kind == "list" || kind == "llist" {
-        let flat: Vec<V> = rows.iter().flat_map(|r| r.iter().cloned()).collect();
+        // bit 10: null rows cover child elements; bit 11: the first offset is not 0
+        let garbage: Vec<V> = rows.iter().find(|r| !r.is_empty()).map(|r| r.to_vec()).unwrap_or_default();
+        let lead: Vec<V> = if (var >> 11) & 1 == 1 { garbage.clone() } else { vec![] };
+        let mut flat: Vec<V> = lead.clone();
+        let mut offs: Vec<usize> = vec![lead.len()];
+        for (r, v) in rows.iter().zip(vals.iter()) {
+            if *v == V::Null && (var >> 10) & 1 == 1 {
+                flat.extend(garbage.iter().cloned());
+            } else {
+                flat.extend(r.iter().cloned());
+            }
+            offs.push(flat.len());
+        }
         let child = build_raw(inner, &flat, var);
-        let lens = rows.iter().map(|r| r.len());
         if kind == "list" {
-            Arc::new(ListArray::try_new(field, OffsetBuffer::from_lengths(lens), child, nulls).expect("list"))
+            let ob = OffsetBuffer::new(offs.iter().map(|x| *x as i32).collect::<Vec<_>>().into());
+            Arc::new(ListArray::try_new(field, ob, child, nulls).expect("list"))
         } else {
-            Arc::new(LargeListArray::try_new(field, OffsetBuffer::from_lengths(lens), child, nulls).expect("llist"))
+            let ob = OffsetBuffer::new(offs.iter().map(|x| *x as i64).collect::<Vec<_>>().into());
+            Arc::new(LargeListArray::try_new(field, ob, child, nulls).expect("llist"))
         }
     } else {
         // list views: rows stored in reverse order in the child
@@ -500,7 +593,7 @@ fn build_list(kind: &str, inner: &Ty, vals: &[V], var: u64) -> ArrayRef {
 fn build_raw(ty: &Ty, vals: &[V], var: u64) -> ArrayRef {
     match ty {
         Ty::Prim(p) => build_prim(p, vals, data_type(ty), var),
-        Ty::Bytes(b) => build_bytes(b, vals),
+        Ty::Bytes(b) => build_bytes(b, vals, var),
         Ty::Fsb(n) => Arc::new(
             FixedSizeBinaryArray::try_from_sparse_iter_with_size(vals.iter().map(bytes_of), *n as i32).expect("fsb"),
         ),
@@ -536,10 +629,71 @@ fn build_raw(ty: &Ty, vals: &[V], var: u64) -> ArrayRef {
                             _ => panic!(),
                         })
                         .collect();
-                    build_raw(ft, &c, var)
+                    if (var >> 11) & 1 == 1 {
+                        // child has its own offset
+                        let mut padded = vec![c.first().cloned().unwrap_or(V::Null)];
+                        padded.extend(c.iter().cloned());
+                        build_raw(ft, &padded, var).slice(1, c.len())
+                    } else {
+                        build_raw(ft, &c, var)
+                    }
                 })
                 .collect();
             Arc::new(StructArray::try_new_with_length(struct_fields(fs), cols, nulls_of(vals, var), vals.len()).expect("struct"))
+        }
+        Ty::Map(kt, vt) => {
+            let rows: Vec<&[V]> = vals
+                .iter()
+                .map(|v| match v {
+                    V::Null => &[][..],
+                    V::List(l) => l.as_slice(),
+                    _ => panic!("map expected"),
+                })
+                .collect();
+            let part = |k: usize| -> Vec<V> {
+                rows.iter().flat_map(|r| r.iter().map(|e| match e { V::Struct(kv) => kv[k].clone(), _ => panic!() })).collect()
+            };
+            let keys = build_raw(kt, &part(0), var & !(1 << 6));
+            let values = build_raw(vt, &part(1), var);
+            let DataType::Struct(efs) = map_entries_field(kt, vt).data_type().clone() else { unreachable!() };
+            let n_entries = keys.len();
+            let entries = StructArray::try_new_with_length(efs, vec![keys, values], None, n_entries).expect("entries");
+            Arc::new(
+                MapArray::try_new(map_entries_field(kt, vt), OffsetBuffer::from_lengths(rows.iter().map(|r| r.len())), entries, nulls_of(vals, var), false)
+                    .expect("map"),
+            )
+        }
+        Ty::Union(dense, fs) => {
+            // a `Null` row (padding) is a null of the first child
+            let slots: Vec<(usize, V)> = vals
+                .iter()
+                .map(|v| match v {
+                    V::Null => (0, V::Null),
+                    V::Union(t, c) => ((*t as usize) / 3, (**c).clone()),
+                    _ => panic!("union expected"),
+                })
+                .collect();
+            let type_ids: ScalarBuffer<i8> = slots.iter().map(|(k, _)| (3 * k) as i8).collect::<Vec<_>>().into();
+            if *dense {
+                let mut per: Vec<Vec<V>> = vec![vec![]; fs.len()];
+                let mut offs: Vec<i32> = vec![];
+                for (k, v) in &slots {
+                    offs.push(per[*k].len() as i32);
+                    per[*k].push(v.clone());
+                }
+                let children: Vec<ArrayRef> = fs.iter().zip(per.iter()).map(|(t, c)| build_raw(t, c, var)).collect();
+                Arc::new(UnionArray::try_new(union_fields(fs), type_ids, Some(offs.into()), children).expect("dense union"))
+            } else {
+                let children: Vec<ArrayRef> = fs
+                    .iter()
+                    .enumerate()
+                    .map(|(k, t)| {
+                        let c: Vec<V> = slots.iter().map(|(kk, v)| if *kk == k { v.clone() } else { V::Null }).collect();
+                        build_raw(t, &c, var)
+                    })
+                    .collect();
+                Arc::new(UnionArray::try_new(union_fields(fs), type_ids, None, children).expect("sparse union"))
+            }
         }
     }
 }
@@ -570,7 +724,8 @@ fn long_filler(ty: &Ty) -> V {
 /// bits 4-5 dictionary / run layout, bit 6 explicit all-valid null buffer on nested types,
 /// bit 7 (views) force a data buffer via a long trailing pad value, bit 8 pass `None` options
 /// when they are the default, bit 9 `sort` instead of `sort_limit`, bit 10 arbitrary values
-/// under null slots of integer-backed primitives.
+/// under null slots (integer-backed primitives, booleans, offset-based byte arrays, list rows),
+/// bit 11 list first offset != 0 and struct children with their own offset.
 fn build(ty: &Ty, vals: &[V], var: u64) -> ArrayRef {
     let front = (var & 3) as usize;
     let mut back = ((var >> 2) & 1) as usize;
@@ -732,17 +887,22 @@ fn run_case(line: &str) -> Out {
                     orc.push(format!("sort_to_indices: {}", w));
                 }
                 // sort / sort_limit return the rows at those positions
-                let sorted = if lim.is_none() && (var >> 9) & 1 == 1 { sort(a.as_ref(), so) } else { sort_limit(a.as_ref(), so, lim) };
-                match (sorted, take(a.as_ref(), &idx, None)) {
-                    (Ok(s), Ok(tk)) => match rows_equal(s.as_ref(), tk.as_ref()) {
-                        Ok(true) => {}
-                        Ok(false) => orc.push("sort/sort_limit output differs from take(sort_to_indices)".into()),
-                        Err(_) => {}
-                    },
-                    (Err(e), _) => orc.push(format!("sort failed {}", err_class(&e))),
-                    (_, Err(_)) => {}
+                let mut outs = vec![("sort_limit", sort_limit(a.as_ref(), so, lim))];
+                if lim.is_none() {
+                    outs.push(("sort", sort(a.as_ref(), so)));
                 }
-                show_list(&idx.values().iter().map(|i| tok(&col[*i as usize])).collect::<Vec<_>>())
+                for (name, sorted) in outs {
+                    match (sorted, take(a.as_ref(), &idx, None)) {
+                        (Ok(s), Ok(tk)) => match rows_equal(s.as_ref(), tk.as_ref()) {
+                            Ok(true) => {}
+                            Ok(false) => orc.push(format!("{} output differs from take(sort_to_indices)", name)),
+                            Err(_) => {}
+                        },
+                        (Err(e), _) => orc.push(format!("{} failed {}", name, err_class(&e))),
+                        (_, Err(_)) => {}
+                    }
+                }
+                show_list(&idx.values().iter().map(|i| tok_out(&col[*i as usize])).collect::<Vec<_>>())
             })
         }
         "lexsort" => {
@@ -754,7 +914,13 @@ fn run_case(line: &str) -> Out {
             let orc = &mut oracle;
             guarded(move || {
                 let cols: Vec<SortColumn> =
-                    specs.iter().map(|(ty, var, o, c)| SortColumn { values: build(ty, c, *var), options: Some(*o) }).collect();
+                    specs
+                        .iter()
+                        .map(|(ty, var, o, c)| SortColumn {
+                            values: build(ty, c, *var),
+                            options: if *o == SortOptions::default() && (var >> 8) & 1 == 1 { None } else { Some(*o) },
+                        })
+                        .collect();
                 let idx = match lexsort_to_indices(&cols, lim) {
                     Ok(i) => i,
                     Err(e) => return err_class(&e),
@@ -764,10 +930,23 @@ fn run_case(line: &str) -> Out {
                 if let Some(w) = check_sorted_prefix(idx.values(), rows, lim, &|i, j| lc.compare(i, j)) {
                     orc.push(format!("lexsort_to_indices: {}", w));
                 }
+                // `lexsort` returns the columns taken at those positions
+                match lexsort(&cols, lim) {
+                    Ok(sorted) => {
+                        for (c, sc) in cols.iter().zip(sorted.iter()) {
+                            if let Ok(tk) = take(c.values.as_ref(), &idx, None) {
+                                if let Ok(false) = rows_equal(sc.as_ref(), tk.as_ref()) {
+                                    orc.push("lexsort output differs from take(lexsort_to_indices)".into());
+                                }
+                            }
+                        }
+                    }
+                    Err(e) => orc.push(format!("lexsort failed {}", err_class(&e))),
+                }
                 show_list(
                     &idx.values()
                         .iter()
-                        .map(|i| specs.iter().map(|s| tok(&s.3[*i as usize])).collect::<Vec<_>>().join("|"))
+                        .map(|i| specs.iter().map(|s| tok_out(&s.3[*i as usize])).collect::<Vec<_>>().join("|"))
                         .collect::<Vec<_>>(),
                 )
             })
@@ -778,7 +957,7 @@ fn run_case(line: &str) -> Out {
             let orc = &mut oracle;
             guarded(move || {
                 let a = build(&ty, &col, var);
-                let r = match rank(a.as_ref(), Some(o)) {
+                let r = match rank(a.as_ref(), if o == SortOptions::default() && (var >> 8) & 1 == 1 { None } else { Some(o) }) {
                     Ok(r) => r,
                     Err(e) => return err_class(&e),
                 };
@@ -821,7 +1000,12 @@ fn run_case(line: &str) -> Out {
                 if want != ranges {
                     orc.push(format!("partition ranges {:?} but comparator gives {:?}", ranges, want));
                 }
-                show_list(&ranges.iter().map(|r| format!("{}:{}", r.start, r.end)).collect::<Vec<_>>())
+                format!(
+                    "{} {} {}",
+                    show_list(&ranges.iter().map(|r| format!("{}:{}", r.start, r.end)).collect::<Vec<_>>()),
+                    p.len(),
+                    if p.is_empty() { 1 } else { 0 }
+                )
             })
         }
         "kernel" => {
@@ -883,6 +1067,189 @@ fn run_case(line: &str) -> Out {
                     return "-".into();
                 }
                 (0..b.len()).map(|k| if b.is_null(k) { 'n' } else if b.value(k) { '1' } else { '0' }).collect()
+            })
+        }
+        "native" => {
+            // C10 native <type> <a> <b>  → compare verdict and is_eq, is_ne, is_lt, is_le, is_gt, is_ge
+            let (ty, a, b) = (t[2].to_string(), parse_v(t[3]), parse_v(t[4]));
+            guarded(move || {
+                fn ops<T: ArrowNativeTypeOp>(a: T, b: T) -> String {
+                    let bit = |x: bool| if x { '1' } else { '0' };
+                    format!(
+                        "{}{}{}{}{}{}{}",
+                        ord_ch(a.compare(b)),
+                        bit(a.is_eq(b)),
+                        bit(a.is_ne(b)),
+                        bit(a.is_lt(b)),
+                        bit(a.is_le(b)),
+                        bit(a.is_gt(b)),
+                        bit(a.is_ge(b))
+                    )
+                }
+                let i = |v: &V| as_i128(v).unwrap();
+                let fb = |v: &V| match v { V::F(_, b) => *b, _ => panic!() };
+                let big = |v: &V| match v { V::Int(x) => *x, _ => panic!() };
+                let tup = |v: &V| match v { V::Tup(x) => x.clone(), _ => panic!() };
+                match ty.as_str() {
+                    "i8" => ops(i(&a) as i8, i(&b) as i8),
+                    "i16" => ops(i(&a) as i16, i(&b) as i16),
+                    "i32" => ops(i(&a) as i32, i(&b) as i32),
+                    "i64" => ops(i(&a) as i64, i(&b) as i64),
+                    "u8" => ops(i(&a) as u8, i(&b) as u8),
+                    "u16" => ops(i(&a) as u16, i(&b) as u16),
+                    "u32" => ops(i(&a) as u32, i(&b) as u32),
+                    "u64" => ops(i(&a) as u64, i(&b) as u64),
+                    "d128" => ops(i(&a), i(&b)),
+                    "d256" => ops(big(&a), big(&b)),
+                    "f16" => ops(f16::from_bits(fb(&a) as u16), f16::from_bits(fb(&b) as u16)),
+                    "f32" => ops(f32::from_bits(fb(&a) as u32), f32::from_bits(fb(&b) as u32)),
+                    "f64" => ops(f64::from_bits(fb(&a)), f64::from_bits(fb(&b))),
+                    "idt" => {
+                        let (x, y) = (tup(&a), tup(&b));
+                        ops(IntervalDayTime::new(x[0] as i32, x[1] as i32), IntervalDayTime::new(y[0] as i32, y[1] as i32))
+                    }
+                    "imdn" => {
+                        let (x, y) = (tup(&a), tup(&b));
+                        ops(IntervalMonthDayNano::new(x[0] as i32, x[1] as i32, x[2]), IntervalMonthDayNano::new(y[0] as i32, y[1] as i32, y[2]))
+                    }
+                    _ => "bad-op".into(),
+                }
+            })
+        }
+        "pvalid" => {
+            // C10 pvalid <type> <var> <col>  → partition_validity
+            let (ty, var, col) = (ty_of(t[2]), us(t[3]), parse_col(t[4]));
+            guarded(move || {
+                let a = build(&ty, &col, var);
+                let (v, n) = partition_validity(a.as_ref());
+                format!("{};{}", show_list(&v), show_list(&n))
+            })
+        }
+        "lexcmp" => {
+            // C10 lexcmp <ncols> (<type> <var> <opts> <col>)*  → LexicographicalComparator verdict matrix
+            let n = us(t[2]) as usize;
+            let specs: Vec<(Ty, u64, SortOptions, Vec<V>)> =
+                (0..n).map(|k| (ty_of(t[3 + 4 * k]), us(t[4 + 4 * k]), opts_of(t[5 + 4 * k]), parse_col(t[6 + 4 * k]))).collect();
+            let orc = &mut oracle;
+            guarded(move || {
+                let cols: Vec<SortColumn> =
+                    specs.iter().map(|(ty, var, o, c)| SortColumn { values: build(ty, c, *var), options: Some(*o) }).collect();
+                let lc = match LexicographicalComparator::try_new(&cols) {
+                    Ok(c) => c,
+                    Err(e) => return err_class(&e),
+                };
+                let rows = specs[0].3.len();
+                macro_rules! fixed {
+                    ($n:literal) => {{
+                        let f = FixedLexicographicalComparator::<$n>::try_new(&cols).unwrap();
+                        for i in 0..rows {
+                            for j in 0..rows {
+                                if f.compare(i, j) != lc.compare(i, j) {
+                                    orc.push(format!("FixedLexicographicalComparator<{}> differs at {} {}", $n, i, j));
+                                }
+                            }
+                        }
+                    }};
+                }
+                match n {
+                    2 => fixed!(2),
+                    3 => fixed!(3),
+                    4 => fixed!(4),
+                    5 => fixed!(5),
+                    _ => {}
+                }
+                if rows == 0 {
+                    return "-".into();
+                }
+                (0..rows).map(|i| (0..rows).map(|j| ord_ch(lc.compare(i, j))).collect::<String>()).collect::<Vec<_>>().join("/")
+            })
+        }
+        "viewcmp" => {
+            // C10 viewcmp <utf8v|binv> <varL> <varR> <colL> <colR>  → compare_byte_view matrix (no nulls)
+            let (ty, vl, vr, l, r) = (ty_of(t[2]), us(t[3]), us(t[4]), parse_col(t[5]), parse_col(t[6]));
+            guarded(move || {
+                let (la, ra) = (build(&ty, &l, vl), build(&ty, &r, vr));
+                let f = |i: usize, j: usize| -> Ordering {
+                    if matches!(ty, Ty::Bytes(ref b) if b == "utf8v") {
+                        compare_byte_view(la.as_string_view(), i, ra.as_string_view(), j)
+                    } else {
+                        compare_byte_view(la.as_binary_view(), i, ra.as_binary_view(), j)
+                    }
+                };
+                if l.is_empty() {
+                    return "-".into();
+                }
+                (0..l.len())
+                    .map(|i| if r.is_empty() { "-".to_string() } else { (0..r.len()).map(|j| ord_ch(f(i, j))).collect::<String>() })
+                    .collect::<Vec<_>>()
+                    .join("/")
+            })
+        }
+        "inlist" => {
+            // C10 inlist <type> <list|llist> <var> <col> <listcol>  → in_list / in_list_utf8
+            let (ty, kind, var, col, lcol) = (ty_of(t[2]), t[3].to_string(), us(t[4]), parse_col(t[5]), parse_col(t[6]));
+            guarded(move || {
+                let left = build(&ty, &col, var);
+                let lty = Ty::List(kind.clone(), Box::new(ty.clone()));
+                let right = build(&lty, &lcol, var);
+                macro_rules! il {
+                    ($t:ty) => {
+                        if kind == "list" { in_list::<$t, i32>(left.as_primitive::<$t>(), right.as_list::<i32>()) } else { in_list::<$t, i64>(left.as_primitive::<$t>(), right.as_list::<i64>()) }
+                    };
+                }
+                let res = match &ty {
+                    Ty::Prim(p) => match p.as_str() {
+                        "i8" => il!(Int8Type),
+                        "i32" => il!(Int32Type),
+                        "i64" => il!(Int64Type),
+                        "u16" => il!(UInt16Type),
+                        "u64" => il!(UInt64Type),
+                        "f16" => il!(Float16Type),
+                        "f32" => il!(Float32Type),
+                        "f64" => il!(Float64Type),
+                        "d128" => il!(Decimal128Type),
+                        _ => return "bad-op".into(),
+                    },
+                    Ty::Bytes(b) if b == "utf8" => in_list_utf8::<i32>(left.as_string::<i32>(), right.as_list::<i32>()),
+                    Ty::Bytes(b) if b == "lutf8" => in_list_utf8::<i64>(left.as_string::<i64>(), right.as_list::<i32>()),
+                    _ => return "bad-op".into(),
+                };
+                match res {
+                    Ok(b) => {
+                        if b.null_count() != 0 {
+                            return "NULLS".into();
+                        }
+                        if b.is_empty() { "-".into() } else { (0..b.len()).map(|k| if b.value(k) { '1' } else { '0' }).collect() }
+                    }
+                    Err(e) => err_class(&e),
+                }
+            })
+        }
+        "unsup" => {
+            // C10 unsup <sort|rank|kernel> <type> <col>  → documented errors for unsupported types
+            let (which, ty, col) = (t[2].to_string(), ty_of(t[3]), parse_col(t[4]));
+            guarded(move || {
+                let a = build(&ty, &col, 0);
+                let r = match which.as_str() {
+                    "sort" => sort_to_indices(a.as_ref(), None, None).map(|_| ()),
+                    "rank" => rank(a.as_ref(), None).map(|_| ()),
+                    _ => cmp::eq(&a, &a).map(|_| ()),
+                };
+                match r {
+                    Ok(()) => "OK".into(),
+                    Err(e) => err_class(&e),
+                }
+            })
+        }
+        "cmpty" => {
+            // C10 cmpty <tyL> <tyR> <colL> <colR>  → make_comparator on different data types must be an error
+            let (tl, tr, l, r) = (ty_of(t[2]), ty_of(t[3]), parse_col(t[4]), parse_col(t[5]));
+            guarded(move || {
+                let (la, ra) = (build(&tl, &l, 0), build(&tr, &r, 0));
+                match make_comparator(la.as_ref(), ra.as_ref(), SortOptions::default()) {
+                    Ok(_) => "OK".into(),
+                    Err(e) => err_class(&e),
+                }
             })
         }
         "psort" => {
@@ -1001,6 +1368,20 @@ fn gen_pool(ty: &Ty, rng: &mut Rng, n: usize) -> Vec<V> {
         Ty::Bytes(b) => {
             let utf8 = b.contains("utf8");
             let base = gen_base(utf8, rng);
+            if rng.bool() {
+                // short strings sharing a prefix, differing only in length / trailing NUL bytes
+                let stem: Vec<u8> = base[..rng.usize(6)].to_vec();
+                return (0..n)
+                    .map(|_| {
+                        let mut b = stem[..rng.usize(stem.len() + 1)].to_vec();
+                        b.extend(std::iter::repeat_n(0u8, rng.usize(5)));
+                        if rng.chance(1, 4) {
+                            b.push(if utf8 { b'a' } else { 0xff });
+                        }
+                        V::Bytes(b)
+                    })
+                    .collect();
+            }
             (0..n).map(|_| gen_bytes(utf8, rng, &base)).collect()
         }
         Ty::Fsb(k) => {
@@ -1028,6 +1409,21 @@ fn gen_pool(ty: &Ty, rng: &mut Rng, n: usize) -> Vec<V> {
         Ty::Struct(fs) => {
             let pools: Vec<Vec<V>> = fs.iter().map(|f| gen_pool(f, rng, 2)).collect();
             (0..n).map(|_| V::Struct(pools.iter().map(|p| pick_or_null(p, rng, 5)).collect())).collect()
+        }
+        Ty::Map(k, v) => {
+            let (kp, vp) = (gen_pool(k, rng, 3), gen_pool(v, rng, 2));
+            (0..n)
+                .map(|_| V::List((0..rng.usize(3)).map(|_| V::Struct(vec![rng.pick(&kp).clone(), pick_or_null(&vp, rng, 4)])).collect()))
+                .collect()
+        }
+        Ty::Union(_, fs) => {
+            let pools: Vec<Vec<V>> = fs.iter().map(|f| gen_pool(f, rng, 2)).collect();
+            (0..n)
+                .map(|_| {
+                    let k = rng.usize(fs.len());
+                    V::Union((3 * k) as i8, Box::new(pick_or_null(&pools[k], rng, 5)))
+                })
+                .collect()
         }
     }
 }
@@ -1081,6 +1477,13 @@ fn gen_comparable(rng: &mut Rng, depth: u32) -> Ty {
         6 => Ty::Ree(rng.pick(RUNS).to_string(), Box::new(gen_comparable(rng, depth - 1))),
         7 | 8 => Ty::List(rng.pick(&["list", "llist", "lview", "llview"]).to_string(), Box::new(gen_comparable(rng, depth - 1))),
         9 => Ty::Fsl(*rng.pick(&[1usize, 2, 3]), Box::new(gen_comparable(rng, depth - 1))),
+        10 if depth == 2 && rng.bool() => {
+            if rng.bool() {
+                Ty::Map(Box::new(gen_rankable(rng)), Box::new(gen_comparable(rng, 1)))
+            } else {
+                Ty::Union(rng.bool(), (0..1 + rng.usize(3)).map(|_| gen_leaf(rng)).collect())
+            }
+        }
         _ => Ty::Struct((0..1 + rng.usize(3)).map(|_| gen_comparable(rng, depth - 1)).collect()),
     }
 }
@@ -1088,7 +1491,7 @@ fn gen_opts(rng: &mut Rng) -> SortOptions {
     SortOptions { descending: rng.bool(), nulls_first: rng.bool() }
 }
 fn gen_var(rng: &mut Rng) -> u64 {
-    if rng.chance(1, 4) { 0 } else { rng.below(2048) }
+    if rng.chance(1, 4) { 0 } else { rng.below(4096) }
 }
 fn ty_tags(t: &Ty) -> String {
     match t {
@@ -1099,6 +1502,8 @@ fn ty_tags(t: &Ty) -> String {
         Ty::List(k, v) => format!("ty:{} {}", k, ty_tags(v)),
         Ty::Fsl(_, v) => format!("ty:fsl {}", ty_tags(v)),
         Ty::Struct(fs) => format!("ty:struct {}", fs.iter().map(ty_tags).collect::<Vec<_>>().join(" ")),
+        Ty::Map(k, v) => format!("ty:map {} {}", ty_tags(k), ty_tags(v)),
+        Ty::Union(d, fs) => format!("ty:union-{} {}", if *d { "dense" } else { "sparse" }, fs.iter().map(ty_tags).collect::<Vec<_>>().join(" ")),
     }
 }
 fn col_tags(c: &[V]) -> String {
@@ -1128,12 +1533,13 @@ fn gen_len(rng: &mut Rng) -> usize {
         1 => 1,
         2 => 2,
         3..=7 => 3 + rng.usize(10),
+        8 if rng.chance(1, 6) => *rng.pick(&[63usize, 64, 65, 127, 128, 129]), // word boundaries of the bit-packed paths
         _ => 13 + rng.usize(28),
     }
 }
 
 fn gen_case(rng: &mut Rng) -> (String, String) {
-    match rng.below(20) {
+    match rng.below(26) {
         0..=3 => {
             let ty = gen_comparable(rng, 2);
             let (l, r) = (gen_len(rng).min(8), gen_len(rng).min(8));
@@ -1188,7 +1594,7 @@ fn gen_case(rng: &mut Rng) -> (String, String) {
             let mut s = format!("C10 lexsort {} {}", lim.map(|l| l.to_string()).unwrap_or("-".into()), n);
             let mut tags = format!("op:lexsort cols:{} {}", n, if heap { "path:heap" } else { "path:sort" });
             for k in 0..n {
-                let ty = if n == 1 { gen_comparable(rng, 1) } else if k == 0 && rng.bool() { Ty::Prim("bool".into()) } else { gen_comparable(rng, 1) };
+                let ty = if n == 1 { gen_comparable(rng, 1) } else if k == 0 && rng.bool() { Ty::Prim("bool".into()) } else { let d = if rng.chance(1, 5) { 2 } else { 1 }; gen_comparable(rng, d) };
                 let col = gen_col(&ty, rng, len);
                 let o = gen_opts(rng);
                 s += &format!(" {} {} {} {}", ty_str(&ty), gen_var(rng), opts_str(o), col_str(&col));
@@ -1215,7 +1621,8 @@ fn gen_case(rng: &mut Rng) -> (String, String) {
             let mut s = format!("C10 partition {}", n);
             let mut tags = format!("op:partition cols:{}", n);
             for _ in 0..n {
-                let ty = gen_comparable(rng, 1);
+                let d = if rng.chance(1, 4) { 2 } else { 1 };
+                let ty = gen_comparable(rng, d);
                 // partition input is typically sorted: make runs
                 let pool = gen_pool(&ty, rng, 3);
                 let mut col = vec![];
@@ -1287,6 +1694,89 @@ fn gen_case(rng: &mut Rng) -> (String, String) {
                 ),
             )
         }
+        20 => {
+            let ty = *rng.pick(&["i8", "i16", "i32", "i64", "u8", "u16", "u32", "u64", "d128", "d256", "f16", "f32", "f64", "idt", "imdn"]);
+            let pool = gen_pool(&Ty::Prim(ty.into()), rng, 3);
+            let (a, b) = (rng.pick(&pool).clone(), rng.pick(&pool).clone());
+            (format!("C10 native {} {} {}", ty, tok(&a), tok(&b)), format!("op:native ty:{} nt", ty))
+        }
+        21 => {
+            let ty = loop {
+                let t = gen_comparable(rng, 1);
+                if !matches!(t, Ty::Dict(..) | Ty::Ree(..)) {
+                    break t;
+                }
+            };
+            let len = gen_len(rng);
+            let col = gen_col(&ty, rng, len);
+            (format!("C10 pvalid {} {} {}", ty_str(&ty), gen_var(rng), col_str(&col)), format!("op:pvalid {} {} {}", ty_tags(&ty), col_tags(&col), if len > 1 { "nt" } else { "" }))
+        }
+        22 => {
+            let n = 1 + rng.usize(6);
+            let len = gen_len(rng).min(8);
+            let mut s = format!("C10 lexcmp {}", n);
+            let mut tags = format!("op:lexcmp cols:{}", n);
+            for _ in 0..n {
+                let ty = gen_comparable(rng, 1);
+                let col = gen_col(&ty, rng, len);
+                s += &format!(" {} {} {} {}", ty_str(&ty), gen_var(rng), opts_str(gen_opts(rng)), col_str(&col));
+                tags += &format!(" {}", ty_tags(&ty));
+            }
+            if len > 1 {
+                tags += " nt";
+            }
+            (s, tags)
+        }
+        23 => {
+            let ty = Ty::Bytes(rng.pick(&["utf8v", "binv"]).to_string());
+            let np = 2 + rng.usize(5);
+            let pool = gen_pool(&ty, rng, np);
+            let (l, r) = (gen_len(rng).min(8), gen_len(rng).min(8));
+            let lc: Vec<V> = (0..l).map(|_| rng.pick(&pool).clone()).collect();
+            let rc: Vec<V> = (0..r).map(|_| rng.pick(&pool).clone()).collect();
+            (
+                format!("C10 viewcmp {} {} {} {} {}", ty_str(&ty), gen_var(rng), gen_var(rng), col_str(&lc), col_str(&rc)),
+                format!("op:viewcmp {} {}", ty_tags(&ty), if l > 0 && r > 0 { "nt" } else { "" }),
+            )
+        }
+        24 => {
+            let tyn = *rng.pick(&["i8", "i32", "i64", "u16", "u64", "f16", "f32", "f64", "d128", "utf8", "lutf8"]);
+            let ty = ty_of(tyn);
+            let kind = if tyn.contains("utf8") { "list" } else { *rng.pick(&["list", "llist"]) };
+            let len = gen_len(rng).min(20);
+            let pool = gen_pool(&ty, rng, 4);
+            let col: Vec<V> = (0..len).map(|_| pick_or_null(&pool, rng, 5)).collect();
+            let lcol: Vec<V> = (0..len)
+                .map(|_| if rng.chance(1, 6) { V::Null } else { V::List((0..rng.usize(4)).map(|_| pick_or_null(&pool, rng, 4)).collect()) })
+                .collect();
+            (
+                format!("C10 inlist {} {} {} {} {}", tyn, kind, gen_var(rng), col_str(&col), col_str(&lcol)),
+                format!("op:inlist ty:{} {}", tyn, if len > 0 { "nt" } else { "" }),
+            )
+        }
+        25 => {
+            let pairs: &[(&str, &str)] = &[
+                ("i32", "i64"),
+                ("utf8", "lutf8"),
+                ("utf8", "bin"),
+                ("dict:i8:utf8", "utf8"),
+                ("ree:i16:i32", "ree:i32:i32"),
+                ("list:i32", "list:i64"),
+                ("list:i32", "llist:i32"),
+                ("struct:1:i32", "struct:2:i32:i32"),
+                ("struct:1:i32", "struct:1:i64"),
+                ("f32", "f64"),
+                ("dict:i8:i32", "dict:i16:i32"),
+                ("dict:u32:utf8", "dict:i32:utf8"),
+            ];
+            let (a, b) = *rng.pick(pairs);
+            let (a, b) = if rng.bool() { (a, b) } else { (b, a) };
+            let (ta, tb) = (ty_of(a), ty_of(b));
+            let (la, lb) = (1 + rng.usize(3), 1 + rng.usize(3));
+            let (ca, cb) = (gen_col(&ta, rng, la), gen_col(&tb, rng, lb));
+            let kf = if matches!((&ta, &tb), (Ty::Dict(..), Ty::Dict(..))) { " kf:dict-key-mismatch" } else { "" };
+            (format!("C10 cmpty {} {} {} {}", a, b, col_str(&ca), col_str(&cb)), format!("op:cmpty nt{}", kf))
+        }
         _ => {
             let len = gen_len(rng);
             let v: Vec<i64> = (0..len).map(|_| rng.range(-5, 5)).collect();
@@ -1294,6 +1784,278 @@ fn gen_case(rng: &mut Rng) -> (String, String) {
             (format!("C10 psort {} {}", lim, show_list(&v)), format!("op:psort {}", if len > 1 && lim > 0 { "nt" } else { "" }))
         }
     }
+}
+
+// ------------------------------------------------------------------------------ fixed boundary block
+
+fn opt4() -> [&'static str; 4] {
+    ["af", "al", "df", "dl"]
+}
+const KOPS: [&str; 8] = ["eq", "neq", "lt", "lt_eq", "gt", "gt_eq", "distinct", "not_distinct"];
+
+/// byte strings around the 4-byte prefix key and the 12-byte inline limit, many differing only
+/// in length / trailing NUL bytes (all valid UTF-8)
+fn bytes_family() -> Vec<V> {
+    let strs: Vec<&[u8]> = vec![
+        b"", b"\0", b"\0\0", b"\0\0\0", b"\0\0\0\0", b"\0\0\0\0\0", b"a", b"a\0", b"a\0\0", b"a\0\0\0", b"a\0\0\0\0", b"ab", b"ab\0", b"ab\0\0",
+        b"abc", b"abc\0", b"abc\0\0", b"abcd", b"abcd\0", b"abcd\0\0", b"abcde", b"abcdf", b"abcd\0e", b"abce", b"abcdefghijk", b"abcdefghijk\0",
+        b"abcdefghijkl", b"abcdefghijkl\0", b"abcdefghijkl\0\0", b"abcdefghijkm", b"abcdefghijklm", b"abcdefghijkln", b"abcdefghijklmnopqrst",
+        b"abcdXfghijklmnopqrst", b"abcdefghijklXnopqrst",
+    ];
+    strs.into_iter().map(|b| V::Bytes(b.to_vec())).collect()
+}
+
+fn float_family(w: u8) -> Vec<V> {
+    let (ebits, mbits) = match w {
+        16 => (5u32, 10u32),
+        32 => (8, 23),
+        _ => (11, 52),
+    };
+    let emax = (1u64 << ebits) - 1;
+    let mmask = (1u64 << mbits) - 1;
+    let bodies = [
+        0,
+        1,
+        mmask,
+        1 << mbits,
+        ((emax >> 1) << mbits),
+        ((emax - 1) << mbits) | mmask,
+        emax << mbits,
+        (emax << mbits) | 1,
+        (emax << mbits) | (1 << (mbits - 1)),
+        (emax << mbits) | mmask,
+    ];
+    let mut out = vec![];
+    for b in bodies {
+        out.push(V::F(w, b));
+        out.push(V::F(w, b | (1u64 << (w as u32 - 1))));
+    }
+    out
+}
+
+fn int_family(p: &str) -> Vec<V> {
+    let (lo, hi): (i128, i128) = match p {
+        "i8" => (i8::MIN as i128, i8::MAX as i128),
+        "i16" => (i16::MIN as i128, i16::MAX as i128),
+        "u8" => (0, u8::MAX as i128),
+        "u16" => (0, u16::MAX as i128),
+        "u32" => (0, u32::MAX as i128),
+        "u64" => (0, u64::MAX as i128),
+        "i64" | "d64" | "date64" | "ts_s" | "ts_ms" | "ts_us" | "ts_ns" | "dur_s" | "dur_ms" | "dur_us" | "dur_ns" | "t64us" | "t64ns" => (i64::MIN as i128, i64::MAX as i128),
+        "d128" | "d256" => (i128::MIN, i128::MAX),
+        _ => (i32::MIN as i128, i32::MAX as i128),
+    };
+    let mut xs = vec![lo, lo + 1, hi - 1, hi, 0, 1, 1];
+    if lo < 0 {
+        xs.push(-1);
+    }
+    let mut out: Vec<V> = xs.into_iter().map(|x| V::Int(i256::from_i128(x))).collect();
+    if p == "d256" {
+        out.push(V::Int(i256::MAX));
+        out.push(V::Int(i256::MIN));
+        out.push(V::Int(i256::from_i128(i128::MAX).wrapping_add(i256::ONE)));
+    }
+    out
+}
+
+fn rotate(v: &[V], k: usize) -> Vec<V> {
+    if v.is_empty() { vec![] } else { (0..v.len()).map(|i| v[(i + k) % v.len()].clone()).collect() }
+}
+
+/// A deterministic block of boundary cases emitted at the start of every run.
+fn fixed_block() -> Vec<(String, String)> {
+    let mut out: Vec<(String, String)> = vec![];
+    let mut rng = Rng::new(0xC10_F1ED);
+    let lim_s = |l: Option<usize>| l.map(|x| x.to_string()).unwrap_or("-".into());
+    // ---- A. byte strings: prefix keys, inline limit, trailing NULs
+    let fam = bytes_family();
+    let mut fam_n = fam.clone();
+    fam_n.insert(7, V::Null);
+    fam_n.push(V::Null);
+    for ty in ["utf8", "lutf8", "bin", "lbin", "utf8v", "binv", "dict:i8:utf8", "dict:i16:binv", "ree:i32:utf8", "ree:i16:binv", "dict:u8:bin"] {
+        for o in opt4() {
+            for lim in [None, Some(3), Some(fam_n.len())] {
+                for var in [0u64, 128 + 1024, 2 + 16 + 2048] {
+                    let col = rotate(&fam_n, (var as usize + o.len() + lim.unwrap_or(5)) % 7);
+                    out.push((format!("C10 sort {} {} {} {} {}", ty, var, o, lim_s(lim), col_str(&col)), "blk:bytes op:sort nt".into()));
+                }
+            }
+        }
+    }
+    for ty in ["utf8", "lutf8", "bin", "lbin", "utf8v", "binv"] {
+        for var in [0u64, 128] {
+            out.push((format!("C10 cmp {} {} {} af {} {}", ty, var, var ^ 128, col_str(&fam_n), col_str(&fam)), "blk:bytes op:cmp nt".into()));
+            out.push((format!("C10 cmp {} {} {} dl {} {}", ty, var, var, col_str(&fam), col_str(&fam_n)), "blk:bytes op:cmp nt".into()));
+        }
+        for o in opt4() {
+            out.push((format!("C10 rank {} 0 {} {}", ty, o, col_str(&fam_n)), "blk:bytes op:rank nt".into()));
+            out.push((format!("C10 lexsort - 2 i32 0 {} {} {} 3 {} {}", o, col_str(&(0..fam_n.len()).map(|i| V::Int(i256::from_i128((i % 3) as i128))).collect::<Vec<_>>()), ty, o, col_str(&fam_n)), "blk:bytes op:lexsort nt".into()));
+        }
+        for op in KOPS {
+            for k in [1usize, 2, 9] {
+                out.push((format!("C10 kernel {} {} {} 0 128 aa {} {}", op, ty, ty, col_str(&fam_n), col_str(&rotate(&fam_n, k))), "blk:bytes op:kernel sc:aa nt".into()));
+            }
+            out.push((format!("C10 kernel {} dict:i8:{} ree:i32:{} 48 17 aa {} {}", op, ty, ty, col_str(&fam_n), col_str(&rotate(&fam_n, 3))), "blk:bytes op:kernel sc:aa nt".into()));
+        }
+        // scalar needles of every short length (eq_inline_scalar for views)
+        for needle in fam.iter().take(24) {
+            for op in ["eq", "neq", "lt", "gt_eq", "distinct"] {
+                for var in [0u64, 128] {
+                    out.push((format!("C10 kernel {} {} {} {} 0 as {} {}", op, ty, ty, var, col_str(&fam_n), tok(needle)), "blk:bytes op:kernel sc:as nt".into()));
+                    out.push((format!("C10 kernel {} {} {} 1 {} sa {} {}", op, ty, ty, var, tok(needle), col_str(&fam_n)), "blk:bytes op:kernel sc:sa nt".into()));
+                }
+            }
+        }
+    }
+    for ty in ["utf8v", "binv"] {
+        for (vl, vr) in [(0u64, 0u64), (128, 0), (0, 128), (128, 128), (1, 2)] {
+            out.push((format!("C10 viewcmp {} {} {} {} {}", ty, vl, vr, col_str(&fam), col_str(&fam)), "blk:bytes op:viewcmp nt".into()));
+        }
+    }
+    for ty in ["list:utf8", "llist:binv", "lview:bin", "fsl:2:utf8v"] {
+        let rows: Vec<V> = (0..fam.len() - 1).map(|i| V::List(vec![fam[i].clone(), if i % 5 == 0 { V::Null } else { fam[i + 1].clone() }])).collect();
+        for o in opt4() {
+            out.push((format!("C10 sort {} 0 {} - {}", ty, o, col_str(&rows)), "blk:bytes op:sort nt".into()));
+        }
+    }
+    for n in [4usize, 5] {
+        let vals: Vec<V> = fam.iter().map(|v| match v { V::Bytes(b) => { let mut x = b.clone(); x.resize(n, 0); V::Bytes(x) } _ => unreachable!() }).collect();
+        for o in opt4() {
+            out.push((format!("C10 sort fsb:{} 0 {} - {}", n, o, col_str(&vals)), "blk:bytes op:sort nt".into()));
+        }
+        out.push((format!("C10 kernel lt fsb:{} fsb:{} 0 0 aa {} {}", n, n, col_str(&vals), col_str(&rotate(&vals, 1))), "blk:bytes op:kernel sc:aa nt".into()));
+    }
+    // ---- B. floats
+    for (w, ty) in [(16u8, "f16"), (32, "f32"), (64, "f64")] {
+        let f = float_family(w);
+        let mut fnull = f.clone();
+        fnull.insert(3, V::Null);
+        fnull.push(V::Null);
+        for o in opt4() {
+            for lim in [None, Some(5)] {
+                out.push((format!("C10 sort {} 1024 {} {} {}", ty, o, lim_s(lim), col_str(&rotate(&fnull, 4))), "blk:float op:sort nt".into()));
+                out.push((format!("C10 sort dict:i8:{} 48 {} {} {}", ty, o, lim_s(lim), col_str(&rotate(&fnull, 9))), "blk:float op:sort nt".into()));
+            }
+            out.push((format!("C10 rank {} 0 {} {}", ty, o, col_str(&fnull)), "blk:float op:rank nt".into()));
+        }
+        out.push((format!("C10 cmp {} 0 0 af {} {}", ty, col_str(&fnull), col_str(&f)), "blk:float op:cmp nt".into()));
+        out.push((format!("C10 partition 1 {} 0 {}", ty, col_str(&fnull)), "blk:float op:partition nt".into()));
+        for op in KOPS {
+            for k in [0usize, 1, 2] {
+                out.push((format!("C10 kernel {} {} {} 0 0 aa {} {}", op, ty, ty, col_str(&fnull), col_str(&rotate(&fnull, k))), "blk:float op:kernel sc:aa nt".into()));
+            }
+        }
+        for k in [0usize, 1, 2, 7] {
+            for (a, b) in f.iter().zip(rotate(&f, k).iter()) {
+                out.push((format!("C10 native {} {} {}", ty, tok(a), tok(b)), "blk:float op:native nt".into()));
+            }
+        }
+        let lists: Vec<V> = (0..f.len()).map(|i| V::List(vec![f[i].clone(), f[(i * 7 + 1) % f.len()].clone()])).collect();
+        out.push((format!("C10 inlist {} list 0 {} {}", ty, col_str(&rotate(&f, 1)), col_str(&lists)), "blk:float op:inlist nt".into()));
+    }
+    // ---- C. integer boundaries
+    for p in INT_PRIMS {
+        let mut v = int_family(p);
+        v.push(V::Null);
+        for o in opt4() {
+            out.push((format!("C10 sort {} 1024 {} - {}", p, o, col_str(&v)), "blk:int op:sort nt".into()));
+        }
+        out.push((format!("C10 kernel lt {} {} 1024 1024 aa {} {}", p, p, col_str(&v), col_str(&rotate(&v, 1))), "blk:int op:kernel sc:aa nt".into()));
+        out.push((format!("C10 rank {} 0 dl {}", p, col_str(&v)), "blk:int op:rank nt".into()));
+    }
+    for p in ["i8", "i16", "i32", "i64", "u8", "u16", "u32", "u64", "d128", "d256"] {
+        let v = int_family(p);
+        for (a, b) in v.iter().zip(rotate(&v, 1).iter()).chain(v.iter().zip(v.iter())) {
+            out.push((format!("C10 native {} {} {}", p, tok(a), tok(b)), "blk:int op:native nt".into()));
+        }
+    }
+    // ---- D. lexsort top-k heap (limit <= rows/10) and the path switch at rows/10 + 1
+    for rows in [10usize, 11, 19, 20, 21, 30, 31, 50] {
+        for lim in 1..=rows / 10 + 1 {
+            for ncols in [2usize, 3, 4, 5, 6] {
+                let mut s = format!("C10 lexsort {} {}", lim, ncols);
+                for c in 0..ncols {
+                    let col: Vec<V> = (0..rows).map(|_| if rng.chance(1, 7) { V::Null } else { V::Int(i256::from_i128(rng.range(0, 1 + c as i64) as i128)) }).collect();
+                    s += &format!(" i32 0 {} {}", opt4()[rng.usize(4)], col_str(&col));
+                }
+                out.push((s, format!("blk:heap op:lexsort {} nt", if lim <= rows / 10 { "path:heap" } else { "path:sort" })));
+            }
+        }
+    }
+    // ---- E. lengths across the 64-bit words of the bit-packed paths
+    for len in [63usize, 64, 65, 127, 128, 129] {
+        let ints: Vec<V> = (0..len).map(|i| if i % 7 == 3 || i == len - 1 { V::Null } else { V::Int(i256::from_i128(((i * 37) % 11) as i128)) }).collect();
+        let ints2: Vec<V> = (0..len).map(|i| if i % 5 == 1 || i == 63 { V::Null } else { V::Int(i256::from_i128(((i * 17) % 11) as i128)) }).collect();
+        let strs: Vec<V> = (0..len).map(|i| if i % 9 == 0 { V::Null } else { fam[(i * 5) % fam.len()].clone() }).collect();
+        let bools: Vec<V> = (0..len).map(|i| if i % 6 == 2 { V::Null } else { V::Int(i256::from_i128(((i / 3) % 2) as i128)) }).collect();
+        let runs: Vec<V> = (0..len).map(|i| V::Int(i256::from_i128((i / 5) as i128))).collect();
+        for op in KOPS {
+            out.push((format!("C10 kernel {} i32 i32 1024 3 aa {} {}", op, col_str(&ints), col_str(&ints2)), "blk:len64 op:kernel sc:aa nt".into()));
+            out.push((format!("C10 kernel {} i32 i32 0 0 as {} i4", op, col_str(&ints)), "blk:len64 op:kernel sc:as nt".into()));
+            out.push((format!("C10 kernel {} utf8v dict:i16:utf8v 128 0 aa {} {}", op, col_str(&strs), col_str(&rotate(&strs, 1))), "blk:len64 op:kernel sc:aa nt".into()));
+        }
+        out.push((format!("C10 kernel lt bool bool 1024 0 aa {} {}", col_str(&bools), col_str(&rotate(&bools, 1))), "blk:len64 op:kernel sc:aa nt".into()));
+        out.push((format!("C10 kernel eq ree:i32:i32 ree:i16:i32 17 0 aa {} {}", col_str(&runs), col_str(&rotate(&runs, 2))), "blk:len64 op:kernel sc:aa nt".into()));
+        out.push((format!("C10 partition 2 i32 0 {} bool 0 {}", col_str(&runs), col_str(&bools)), "blk:len64 op:partition nt".into()));
+        out.push((format!("C10 partition 1 utf8 2 {}", col_str(&strs)), "blk:len64 op:partition nt".into()));
+        for o in opt4() {
+            out.push((format!("C10 sort i32 1 {} - {}", o, col_str(&ints)), "blk:len64 op:sort nt".into()));
+            out.push((format!("C10 sort utf8 0 {} 64 {}", o, col_str(&strs)), "blk:len64 op:sort nt".into()));
+            out.push((format!("C10 sort bool 2 {} 65 {}", o, col_str(&bools)), "blk:len64 op:sort nt".into()));
+            out.push((format!("C10 rank bool 0 {} {}", o, col_str(&bools)), "blk:len64 op:rank nt".into()));
+        }
+        out.push((format!("C10 rank i32 0 af {}", col_str(&ints)), "blk:len64 op:rank nt".into()));
+        out.push((format!("C10 pvalid i32 3 {}", col_str(&ints)), "blk:len64 op:pvalid nt".into()));
+        out.push((format!("C10 pvalid utf8 0 {}", col_str(&strs)), "blk:len64 op:pvalid nt".into()));
+    }
+    // ---- F. data type mismatches
+    for (a, b) in [("i32", "i64"), ("utf8", "lutf8"), ("dict:i8:utf8", "utf8"), ("ree:i16:i32", "ree:i32:i32"), ("list:i32", "list:i64"), ("struct:1:i32", "struct:2:i32:i32")] {
+        out.push((format!("C10 cmpty {} {} {} {}", a, b, col_str(&gen_col(&ty_of(a), &mut rng, 2)), col_str(&gen_col(&ty_of(b), &mut rng, 2))), "blk:types op:cmpty nt".into()));
+    }
+    for (a, b) in [("dict:i8:i32", "dict:i16:i32"), ("dict:u64:utf8", "dict:i64:utf8")] {
+        out.push((format!("C10 cmpty {} {} {} {}", a, b, col_str(&gen_col(&ty_of(a), &mut rng, 2)), col_str(&gen_col(&ty_of(b), &mut rng, 2))), "blk:types op:cmpty nt kf:dict-key-mismatch".into()));
+    }
+    // ---- F2. documented errors and degenerate inputs
+    for ty in ["struct:1:i32", "map:utf8:i32", "union:d:1:i32", "list:struct:1:i32", "dict:i8:list:i32", "fsl:2:fsb:2"] {
+        let c = gen_col(&ty_of(ty), &mut rng, 3);
+        out.push((format!("C10 unsup sort {} {}", ty, col_str(&c)), "blk:errors op:unsup nt".into()));
+    }
+    for ty in ["struct:1:i32", "list:i32", "fsb:2", "dict:i8:i32", "ree:i32:i32"] {
+        let c = gen_col(&ty_of(ty), &mut rng, 3);
+        out.push((format!("C10 unsup rank {} {}", ty, col_str(&c)), "blk:errors op:unsup nt".into()));
+    }
+    for ty in ["struct:1:i32", "list:i32", "fsl:1:i32", "dict:i8:list:i32", "ree:i32:struct:1:i32", "map:utf8:i32"] {
+        let c = gen_col(&ty_of(ty), &mut rng, 3);
+        out.push((format!("C10 unsup kernel {} {}", ty, col_str(&c)), "blk:errors op:unsup nt".into()));
+    }
+    out.push(("C10 lexsort - 0".into(), "blk:errors op:lexsort".into()));
+    out.push(("C10 lexsort 2 2 i32 0 af i1,i2 i32 0 af i1,i2,i3".into(), "blk:errors op:lexsort nt".into()));
+    out.push(("C10 partition 0".into(), "blk:errors op:partition".into()));
+    out.push(("C10 partition 2 i32 0 i1,i2 i32 0 i1,i2,i3".into(), "blk:errors op:partition nt".into()));
+    out.push(("C10 kernel eq i32 i32 0 0 aa i1,i2 i1,i2,i3".into(), "blk:errors op:kernel sc:aa nt".into()));
+    out.push(("C10 inlist i32 list 0 i1,i2 [i1]".into(), "blk:errors op:inlist nt".into()));
+    for o in opt4() {
+        out.push((format!("C10 cmp null 0 3 {} n,n,n n,n", o), "blk:errors op:cmp ty:null nt".into()));
+    }
+    for op in KOPS {
+        out.push((format!("C10 kernel {} null null 0 0 aa n,n,n n,n,n", op), "blk:errors op:kernel ty:null sc:aa nt".into()));
+    }
+    out.push(("C10 partition 2 null 0 n,n,n i32 0 i1,i1,i2".into(), "blk:errors op:partition ty:null nt".into()));
+    // ---- G. maps and unions
+    for ty in ["map:utf8:i32", "map:i32:list:utf8", "union:d:2:i32:utf8", "union:s:3:i32:f64:bin"] {
+        let t = ty_of(ty);
+        for o in opt4() {
+            for var in [0u64, 1 + 4, 64 + 2] {
+                let pool = gen_pool(&t, &mut rng, 5);
+                let l: Vec<V> = (0..7).map(|_| pick_or_null(&pool, &mut rng, 5)).collect();
+                let r: Vec<V> = (0..7).map(|_| pick_or_null(&pool, &mut rng, 5)).collect();
+                out.push((format!("C10 cmp {} {} {} {} {} {}", ty, var, var, o, col_str(&l), col_str(&r)), format!("blk:nested op:cmp {} nt", ty_tags(&t))));
+                out.push((format!("C10 lexsort - 2 {} {} {} {} i32 0 af {}", ty, var, o, col_str(&l), col_str(&(0..7).map(|i| V::Int(i256::from_i128(i))).collect::<Vec<_>>())), format!("blk:nested op:lexsort {} nt", ty_tags(&t))));
+                out.push((format!("C10 partition 1 {} {} {}", ty, var, col_str(&l)), format!("blk:nested op:partition {} nt", ty_tags(&t))));
+            }
+        }
+    }
+    out
 }
 
 fn main() {
@@ -1316,6 +2078,9 @@ fn main() {
     } else {
         let mut rng = Rng::new(args.seed ^ 0xC10);
         let n = n_cases(&args, 20000, 400000);
+        for (line, tags) in fixed_block() {
+            emit(&mut sink, line, &tags);
+        }
         for _ in 0..n {
             let (line, tags) = gen_case(&mut rng);
             emit(&mut sink, line, &tags);
